@@ -95,7 +95,8 @@ CHECKS = {
         text="to_qsw/to_tnw/to_local, ImpulsiveMan, ContinuousMan, dkep2dv and the maneuver clause of KeplerNum._make_step are "
              "executed symbolically: proved for every state with non-zero angular momentum that the matrices are proper rotations "
              "with the defined axes (M M^T = I, det = 1, rows = r^ / v^, completion, h^), that a maneuver contributes exactly its "
-             "stated components along the stated axes (all 3 frames, impulsive / continuous by dv / by accel), window arithmetic "
+             "stated components along the stated axes (all 3 frames, impulsive / continuous by dv / by accel; QSW/TNW also for a state "
+             "stored in spherical form: the axes are those of its cartesian position and velocity), window arithmetic "
              "for the three date_pos, exactly-once firing of an impulse over any tiling of the span by forward steps (bounded "
              "number of tiles), _make_step adds the impulse iff t0 < date <= t0+h, and dkep2dv obeys Al-Kashi / Gauss relations.",
         note="Trusted: z3; independent triad construction in the harness. _accel is stubbed by a symbolic derivative vector here "
@@ -245,7 +246,8 @@ CHECKS = {
              "the requested frame and that QSW/TNW triads are built from the attach-frame state -- which, rotations forming a "
              "groupoid, is exactly 'R C R^T with R depending only on the target'; the same after Cov.copy(frame=...) taken at any point "
              "of such a history, followed by one more change of the copy (triads typed by the kinematic class, non-rotating vs "
-             "Earth-fixed, of the coordinates they are built from). Counterexample sequences are replayed on real "
+             "Earth-fixed, of the coordinates they are built from). The real StateVector.cov / Cov.orb setters re-attach a covariance "
+             "built with any other state (equal or different symbolic date) to a private copy of the receiving state. Counterexample sequences are replayed on real "
              "StateVector/Cov objects after every step.",
         note="Trusted: z3; the groupoid law of frame rotations (C02). Bounded: sequences of <= 3 (quick) / 4 (thorough) targets. "
              "Outside: eigenvalue preservation as a separate numeric statement.",
